@@ -319,6 +319,11 @@ def gen_cases(seed, tier):
                  (48 if q else 640, _gen_adaptive_rand)):
         for _ in range(n):
             cases.append(g(rng, tier))
+    # two static samplers with their own intervals combined by + / append: each part follows its own state machine
+    for i in range(36 if q else 600):
+        cases.append({"kind": "static_combo", "op": ["sum", "append"][i % 2], "ia": INTERVALS[int(rng.integers(0, 4))] if i % 5 else "inf",
+                      "ib": INTERVALS[int(rng.integers(0, 4))] if i % 7 else "inf", "n": int(rng.integers(3, 9)), "k": 0,
+                      "seed": int(rng.integers(0, 2**31))})
     # fixed short histories around every interval boundary (first expiry, second expiry, re-staticising mid-way)
     for iv in INTERVALS:
         m = 3 * (iv if iv != "inf" else 7) + 2
@@ -964,8 +969,60 @@ def _cls(c, res):
     return "rand/%s/k%d/lev%d/lo%g/sc%g/re%d" % (c["dom"]["dom"], c["k"], len(c["levels"]), c["lo"], c["scale"], c["reshuffle"])
 
 
+def _run_static_combo(c, res):
+    """op(static(a, ia), static(b, ib)): the rows / columns of each operand are identical within blocks of its own interval
+    and freshly drawn at every expiry"""
+    import torchphysics as tp
+    torch.manual_seed(c["seed"])
+    X, Y = tp.spaces.R1("x"), tp.spaces.R1("y")
+    n = c["n"]
+    a = tp.samplers.RandomUniformSampler(tp.domains.Interval(X, 0.0, 1.0), n_points=n).make_static(_iv(c["ia"]))
+    mech = {"sampler": "StaticSampler", "inner": "combo_" + c["op"], "params": False}
+    if c["op"] == "sum":
+        b = tp.samplers.RandomUniformSampler(tp.domains.Interval(X, 2.0, 3.0), n_points=n + 1).make_static(_iv(c["ib"]))
+        s = a + b
+        parts = lambda t: (t[:n, 0], t[n:, 0])
+    else:
+        b = tp.samplers.RandomUniformSampler(tp.domains.Interval(Y, 2.0, 3.0), n_points=n).make_static(_iv(c["ib"]))
+        s = a.append(b)
+        parts = lambda t, s_=None: (t[:, 0], t[:, 1])
+    ka, kb = _iv(c["ia"]), _iv(c["ib"])
+    ncalls = int(min(3 * (ka if ka != math.inf else 3) * (kb if kb != math.inf else 3) + 2, 40))
+    hist = []
+    for j in range(ncalls):
+        try:
+            out = s.sample_points()
+        except Exception as e:
+            res["viol"].append(viol("exception", "call %d of static(%s) %s static(%s) raised %r" % (j, c["ia"], c["op"], c["ib"], e),
+                                    site=exc_site(e), call="sample_points", **mech))
+            return
+        t = out.as_tensor.detach().clone()
+        if c["op"] == "append":
+            names = list(out.space.keys())
+            t = torch.cat([out.coordinates["x"], out.coordinates["y"]], -1).detach().clone() if set(names) == {"x", "y"} else t
+        hist.append(parts(t))
+    res["counters"]["combo_calls"] = ncalls
+    for which, kk in ((0, ka), (1, kb)):
+        for j in range(1, ncalls):
+            same_block = (kk == math.inf) or (j // kk == (j - 1) // kk)
+            same = hist[j][which].shape == hist[j - 1][which].shape and torch.equal(hist[j][which], hist[j - 1][which])
+            res["judged"] += 1
+            if same != same_block:
+                res["viol"].append(viol("static_wrong_set", "static(%s) %s static(%s): operand %s at call %d is %s the one of call %d, its "
+                                        "interval %s expects %s" % (c["ia"], c["op"], c["ib"], "ab"[which], j, "identical to" if same else "different from",
+                                                                    j - 1, "inf" if kk == math.inf else kk, "a cached set" if same_block else "a fresh set"),
+                                        expected="cached" if same_block else "fresh", observed="cached" if same else "fresh",
+                                        call="combo", **mech))
+                return
+
+
 def run_case(c):
     res = {"cls": "?", "judged": 0, "nontrivial": False, "viol": [], "counters": {}}
+    if c["kind"] == "static_combo":
+        _run_static_combo(c, res)
+        res["cls"] = "static_combo/%s/i%s/i%s" % (c["op"], _ivclass(c["ia"]), _ivclass(c["ib"]))
+        res["nontrivial"] = res["judged"] > 0
+        return res
     {"static": _run_static, "nonstatic": _run_nonstatic, "adaptive_thr": _run_adaptive_thr,
      "adaptive_cond": _run_adaptive_cond, "adaptive_rand": _run_adaptive_rand}[c["kind"]](c, res)
     res["cls"] = _cls(c, res)
